@@ -507,3 +507,94 @@ def rule_lease_wiring(ctx, rule):
         rep.add(rule, '%s / lease publisher subscribed iff leases are in use' % label, f, ok and n > 0,
                 '_subscribe_to_lease_publisher() exactly when %s is set' % condkey if ok and n else
                 'with %s set the lease publisher is not subscribed (or it is subscribed without it)' % condkey)
+
+
+def shared_default_state(ctx):
+    """Per-instance state must be created per instance: an __init__ parameter whose default is an object built when the
+    function is defined (a call to a repository class or a container literal), stored into an attribute that the class
+    then mutates, is one object shared by every instance constructed without that argument.
+    -> [(class, init FuncInfo, parameter, attribute, why)]"""
+    from ..index import ClassInfo
+    out = []
+    for c in ctx.repo.all_classes():
+        if not c.module.name.startswith('rsocket') or c.module.name.startswith('rsocket.cli'):
+            continue
+        init = c.methods.get('__init__')
+        if init is None:
+            continue
+        a = init.node.args
+        params = a.posonlyargs + a.args
+        defaults = [None] * (len(params) - len(a.defaults)) + list(a.defaults)
+        pairs = list(zip(params, defaults)) + list(zip(a.kwonlyargs, a.kw_defaults))
+        for prm, d in pairs:
+            if d is None:
+                continue
+            mutable = isinstance(d, (ast.List, ast.Dict, ast.Set, ast.ListComp, ast.DictComp, ast.SetComp))
+            if isinstance(d, ast.Call):
+                r = ctx.repo.resolve_expr(init.module, d.func, c)
+                if isinstance(r, ClassInfo):
+                    mutable = True
+                elif isinstance(d.func, ast.Name) and d.func.id in ('dict', 'list', 'set', 'bytearray', 'deque',
+                                                                     'Queue', 'defaultdict', 'OrderedDict'):
+                    mutable = True
+                elif ast.unparse(d.func).split('.')[-1] in ('Queue', 'Event', 'Future', 'Lock', 'deque'):
+                    mutable = True
+            if not mutable:
+                continue
+            # stored into self.<attr>?
+            attrs = [n.targets[0].attr for n in walk_local(init.node)
+                     if isinstance(n, ast.Assign) and len(n.targets) == 1 and
+                     isinstance(n.targets[0], ast.Attribute) and isinstance(n.targets[0].value, ast.Name) and
+                     n.targets[0].value.id == 'self' and isinstance(n.value, ast.Name) and n.value.id == prm.arg]
+            attrs += [n.target.attr for n in walk_local(init.node)
+                      if isinstance(n, ast.AnnAssign) and isinstance(n.target, ast.Attribute) and
+                      isinstance(n.target.value, ast.Name) and n.target.value.id == 'self' and
+                      isinstance(n.value, ast.Name) and n.value.id == prm.arg]
+            for attr in attrs:
+                mutated = None
+                for k in [c] + ctx.repo.subclasses(c):
+                    for f in k.methods.values():
+                        for n in ast.walk(f.node):
+                            tgt = None
+                            if isinstance(n, (ast.Assign, ast.AugAssign)):
+                                ts = n.targets if isinstance(n, ast.Assign) else [n.target]
+                                for t in ts:
+                                    if isinstance(t, (ast.Attribute, ast.Subscript)) and \
+                                            isinstance(t.value, ast.Attribute) and t.value.attr == attr and \
+                                            isinstance(t.value.value, ast.Name) and t.value.value.id == 'self':
+                                        tgt = t
+                            if isinstance(n, ast.Call) and isinstance(n.func, ast.Attribute) and \
+                                    n.func.attr in ('append', 'extend', 'add', 'update', 'pop', 'clear', 'put_nowait',
+                                                    'put', 'set', 'insert', 'remove', 'setdefault', 'popitem',
+                                                    'receive_data') and \
+                                    isinstance(n.func.value, ast.Attribute) and n.func.value.attr == attr and \
+                                    isinstance(n.func.value.value, ast.Name) and n.func.value.value.id == 'self':
+                                tgt = n
+                            if tgt is not None and mutated is None:
+                                mutated = (f, n)
+                if mutated is not None:
+                    out.append((c, init, prm.arg, attr,
+                                'self.%s is the default object of parameter %s (%s, built once when the class is '
+                                'defined) and is mutated in %s (line %s): every %s constructed without that argument '
+                                'shares it' % (attr, prm.arg, ast.unparse(d)[:40], mutated[0].short, mutated[1].lineno,
+                                               c.name)))
+    return out
+
+
+def rule_shared_defaults(ctx, rule, module_prefixes, label):
+    rep = ctx.report
+    found = [x for x in shared_default_state(ctx) if x[0].module.name.startswith(tuple(module_prefixes))]
+    n_cls = len([c for c in ctx.repo.all_classes() if c.module.name.startswith(tuple(module_prefixes)) and
+                 '__init__' in c.methods])
+    if n_cls == 0:
+        raise AnalysisError('%s: no class with a constructor under %s' % (rule, module_prefixes))
+    if found:
+        c, init, prm, attr, why = found[0]
+        rep.bad(rule, '%s / per-instance state is created per instance' % label, init, why)
+    else:
+        rep.ok(rule, '%s / per-instance state is created per instance' % label, ctx.repo.cls(
+            [c for c in ctx.repo.all_classes() if c.module.name.startswith(tuple(module_prefixes)) and
+             '__init__' in c.methods][0].module.name + ':' +
+            [c for c in ctx.repo.all_classes() if c.module.name.startswith(tuple(module_prefixes)) and
+             '__init__' in c.methods][0].name),
+               'no constructor of %d classes stores a mutable default argument into state it later mutates' % n_cls)
